@@ -140,3 +140,67 @@ Proof.
   - now left.
   - right. rewrite (c13_propagates orc c mode t body hist x Hl E) in H. exact H.
 Qed.
+
+(* ---------- one LockContext object entered several times (Model/LockCtx.v [Reuse]) ---------- *)
+Lemma exec_seq orc c mode p q hist :
+  exec orc c mode (Seq p q) hist =
+  let (t1, r1) := exec orc c mode p hist in
+  match r1 with
+  | Normal => let (t2, r2) := exec orc c mode q (hist ++ t1) in (t1 ++ t2, r2)
+  | Exc x => (t1, Exc x)
+  end.
+Proof. reflexivity. Qed.
+
+Lemma exec_try orc c mode p hist :
+  exec orc c mode (Try p) hist = let (t1, _) := exec orc c mode p hist in (t1, Normal).
+Proof. reflexivity. Qed.
+
+(* a retry loop: the first entry of the object is refused (and caught), the second is granted: the refused entry
+   leaves the lock request only, the granted one is bracketed like a fresh context - lock, exactly the body, ONE unlock *)
+Lemma c13_reuse_refused_then_granted orc c mode t b1 b2 caught2 hist :
+  lock_refused orc c t hist ->
+  let lr := mkEv K_LOCK t true true in
+  let lk := mkEv K_LOCK t true false in
+  decide MODE_ERRORS (orc (hist ++ [lr]) K_LOCK t) c = Return ->
+  let tb := fst (exec orc c mode b2 ((hist ++ [lr]) ++ [lk])) in
+  exists u, fst (exec orc c mode (Reuse t [(true, b1); (caught2, b2)]) hist) = [lr] ++ ([lk] ++ tb ++ [mkEv K_UNLOCK t true u]).
+Proof.
+  intros Href lr lk Hgr tb.
+  destruct (c13_bracket orc c mode t b2 (hist ++ [lr]) Hgr) as [u Hu]. cbn zeta in Hu. fold lk lr tb in Hu.
+  exists u. unfold Reuse, locked. cbn [reuse_entries]. unfold enter_once, With. cbn [lc_target fst snd].
+  rewrite exec_seq, exec_try, (c13_lock_refused orc c mode t b1 hist Href). fold lr.
+  rewrite exec_seq. destruct caught2.
+  - rewrite exec_try. destruct (exec orc c mode (Locked t b2) (hist ++ [lr])) as [t2 r2]. cbn [fst] in Hu. subst t2.
+    cbn [exec fst]. now rewrite app_nil_r.
+  - destruct (exec orc c mode (Locked t b2) (hist ++ [lr])) as [t2 r2]. cbn [fst] in Hu. subst t2.
+    destruct r2; [cbn [exec fst]; now rewrite app_nil_r | reflexivity].
+Qed.
+
+(* the same object granted twice in a row (first entry's exceptions caught): two complete brackets *)
+Lemma c13_reuse_granted_twice orc c mode t b1 b2 caught2 hist :
+  let lk := mkEv K_LOCK t true false in
+  decide MODE_ERRORS (orc hist K_LOCK t) c = Return ->
+  let tb1 := fst (exec orc c mode b1 (hist ++ [lk])) in
+  forall u1, fst (exec orc c mode (Locked t b1) hist) = [lk] ++ tb1 ++ [mkEv K_UNLOCK t true u1] ->
+  let h2 := hist ++ ([lk] ++ tb1 ++ [mkEv K_UNLOCK t true u1]) in
+  decide MODE_ERRORS (orc h2 K_LOCK t) c = Return ->
+  let tb2 := fst (exec orc c mode b2 (h2 ++ [lk])) in
+  exists u2, fst (exec orc c mode (Reuse t [(true, b1); (caught2, b2)]) hist) =
+             ([lk] ++ tb1 ++ [mkEv K_UNLOCK t true u1]) ++ ([lk] ++ tb2 ++ [mkEv K_UNLOCK t true u2]).
+Proof.
+  intros lk H1 tb1 u1 Hu1 h2 H2 tb2.
+  destruct (c13_bracket orc c mode t b2 h2 H2) as [u2 Hu2]. cbn zeta in Hu2. fold lk tb2 in Hu2.
+  exists u2. unfold Reuse, locked. cbn [reuse_entries]. unfold enter_once, With. cbn [lc_target fst snd].
+  rewrite exec_seq, exec_try.
+  destruct (exec orc c mode (Locked t b1) hist) as [t1 r1]. cbn [fst] in Hu1. subst t1. fold h2.
+  rewrite exec_seq. destruct caught2.
+  - rewrite exec_try. destruct (exec orc c mode (Locked t b2) h2) as [t2 r2]. cbn [fst] in Hu2. subst t2.
+    cbn [exec fst]. now rewrite app_nil_r.
+  - destruct (exec orc c mode (Locked t b2) h2) as [t2 r2]. cbn [fst] in Hu2. subst t2.
+    destruct r2; [cbn [exec fst]; now rewrite app_nil_r | reflexivity].
+Qed.
+
+(* any number of entries, any answers: as many context unlocks as granted entries, LIFO discipline kept *)
+Lemma c13_reuse_counts orc c mode t es hist :
+  accepted_ctx_locks (fst (exec orc c mode (Reuse t es) hist)) = ctx_unlocks (fst (exec orc c mode (Reuse t es) hist)).
+Proof. apply c13_counts. Qed.
